@@ -304,7 +304,7 @@ func C15(c *vlib.Ctx) {
 	c.Assume("item_index equality is demanded when exactly one item is invalid (validation runs in phases, so with several invalid items only membership would be checkable)")
 	dir := c.Scratch()
 	kinds := c15Kinds()
-	nCfg := c.N(80, 900)
+	nCfg := c.N(80, 2400)
 	perCfg := c.N(22, 40)
 	acceptedBatches := 0
 	for ci := 0; ci < nCfg; ci++ {
